@@ -127,9 +127,7 @@ theorem keys_step (s : State) (o : Op) (hs : s.started = true) (r : String) (b :
       · exact ⟨hs, h⟩
       · split
         · exact ⟨hs, h⟩
-        · split
-          · exact ⟨hs, h⟩
-          · exact ⟨hs, h⟩
+        · exact ⟨hs, h⟩
   | fire r' =>
     simp only [step, fire, liveAux]
     split
@@ -183,15 +181,12 @@ theorem pause_ok_iff (s : State) (r : String) (hs : s.started = true) :
   · simp [hk]
 
 theorem resume_ok_iff (s : State) (r : String) (hs : s.started = true) :
-    (resume s r).2 = .ok ↔ r ∈ s.keys ∧ ∃ j, s.job r = some j ∧ j.suspended = true ∧ j.kind ≠ .once := by
+    (resume s r).2 = .ok ↔ r ∈ s.keys ∧ ∃ j, s.job r = some j ∧ j.suspended = true := by
   simp only [resume, hs, Bool.not_true, Bool.false_eq_true, ↓reduceIte]
   by_cases hk : r ∈ s.keys
   · cases hj : s.job r with
     | none => simp [hk]
-    | some j =>
-      cases hsu : j.suspended
-      · simp [hk, hsu]
-      · cases hkd : j.kind <;> simp [hk, hsu, hkd]
+    | some j => cases hsu : j.suspended <;> simp [hk, hsu]
   · simp [hk]
 
 /-! ### cancelled and paused schedules stop; a one-shot fires at most once -/
@@ -309,18 +304,12 @@ theorem jobsKeyed_step (s : State) (o : Op) (hs : s.started = true) (h : JobsKey
         cases hsu : j.suspended
         · simp only [step, resume, hs, Bool.not_true, Bool.false_eq_true, ↓reduceIte, hc, hj, hsu] at hx ⊢
           exact h x hx
-        · cases hkd : j.kind <;>
-            simp only [step, resume, hs, Bool.not_true, Bool.false_eq_true, ↓reduceIte, hc, hj, hsu, hkd] at hx ⊢
-          · show x ∈ s.keys
-            by_cases hxr : x = r
-            · subst hxr; exact hk
-            · rw [job_delJob_ne s r x hxr] at hx; exact h x hx
-          all_goals
-            rw [job_putJob] at hx
-            show x ∈ s.keys
-            by_cases hxr : x = r
-            · subst hxr; exact hk
-            · simp only [hxr, ↓reduceIte] at hx; exact h x hx
+        · simp only [step, resume, hs, Bool.not_true, Bool.false_eq_true, ↓reduceIte, hc, hj, hsu] at hx ⊢
+          rw [job_putJob] at hx
+          show x ∈ s.keys
+          by_cases hxr : x = r
+          · subst hxr; exact hk
+          · simp only [hxr, ↓reduceIte] at hx; exact h x hx
     · have hc : s.keys.contains r = false := by simpa using hk
       simp only [step, resume, hs, Bool.not_true, Bool.false_eq_true, ↓reduceIte, hc, Bool.not_false] at hx ⊢
       exact h x hx
@@ -393,36 +382,26 @@ theorem once_fires_once (s : State) (r : String) (j : Job) (hj : s.job r = some 
     exact fire_absent _ r this
   · rw [paused_silent s r j hj hp, paused_silent s r j hj hp]
 
-/-! ### finding C19-F1: pause + resume loses a one-shot schedule -/
-
-/-- whatever the history: resuming a paused one-shot reports `trigger has expired` and the job is
-    gone — the message will never be delivered -/
-theorem resume_once_lost (s : State) (r : String) (j : Job) (hs : s.started = true) (hk : r ∈ s.keys)
-    (hj : s.job r = some j) (h1 : j.kind = .once) (h2 : j.suspended = true) :
-    (resume s r).2 = .expired ∧ (resume s r).1.job r = none := by
-  have hc : s.keys.contains r = true := by simpa using hk
-  have : resume s r = (s.delJob r, .expired) := by
-    simp only [resume, hs, hc, hj, h2, h1, Bool.not_true, Bool.false_eq_true, ↓reduceIte]
-  rw [this]
-  exact ⟨rfl, job_delJob s r⟩
+/-! ### a paused schedule can be resumed (was finding C19-F1, fixed by c88f7fc) -/
 
 /-- the full statement for references, including "a paused schedule can be resumed" -/
 def C19_refs_full : Prop :=
   ∀ (os : List Op) (r : String) (j : Job), (run {} os).job r = some j → j.suspended = true →
-    (resume (run {} os) r).2 = .ok
+    (resume (run {} os) r).2 = .ok ∧ (resume (run {} os) r).1.job r = some { j with suspended := false }
 
-theorem C19_refs_refuted : ¬ C19_refs_full := by
-  intro h
-  have := h [.schedule .once "a", .pause "a"] "a" { kind := .once, suspended := true } (by decide) rfl
-  exact absurd this (by decide)
-
-/-- … and it holds for every schedule that is not one-shot -/
-theorem C19_resume_partial (os : List Op) (r : String) (j : Job) (hj : (run {} os).job r = some j)
-    (hp : j.suspended = true) (hk : j.kind ≠ .once) : (resume (run {} os) r).2 = .ok := by
+/-- for ALL op sequences and every kind of schedule — one-shot included since c88f7fc (before, a paused
+    one-shot was dropped by quartz.ResumeJob: `refs | once A ; pause A ; resume A` gave `expired`) -/
+theorem C19_refs_holds : C19_refs_full := by
+  intro os r j hj hp
   obtain ⟨hjk, hst⟩ := jobsKeyed_run {} os rfl (by intro x hx; simp [State.job] at hx)
-  exact (resume_ok_iff _ r hst).mpr ⟨hjk r (by simp [hj]), j, hj, hp, hk⟩
+  have hk : r ∈ (run {} os).keys := hjk r (by simp [hj])
+  have hc : (run {} os).keys.contains r = true := by simpa using hk
+  have : resume (run {} os) r = ((run {} os).putJob r { j with suspended := false }, .ok) := by
+    simp only [resume, hst, hc, hj, hp, Bool.not_true, Bool.false_eq_true, ↓reduceIte]
+  rw [this]
+  exact ⟨rfl, by simp [job_putJob]⟩
 
-example : (run {} [.schedule .every "a", .pause "a"]).job "a" = some { kind := .every, suspended := true } := by decide
+example : (run {} [.schedule .once "a", .pause "a"]).job "a" = some { kind := .once, suspended := true } := by decide
 
 /-! ### cluster cron claim: at most one winner per tick, for all interleavings -/
 
